@@ -20,6 +20,8 @@ _NEG = {"<": ">=", "<=": ">", ">": "<=", ">=": "<", "==": "!=", "!=": "=="}
 
 
 def canon(v):
+    if isinstance(v, Const) and v.named and v.bits is not None and v.s is None and v.ty != "discr":
+        return Const(v.ty, v.bits)      # a named integer constant is its value
     if isinstance(v, App):
         args = [canon(a) for a in v.args]
         if v.fn in _UNWRAP_OPT and args:
